@@ -34,6 +34,7 @@ func namesOf(m *dns.Msg) []string {
 
 // decode one hostile input with every oracle of the property
 func hostile(w []byte, emit bool, what string) {
+	w = append(make([]byte, 0, len(w)), w...) // capacity = length: a read past the end cannot hide in spare capacity
 	st["inputs_checked"]++
 	in := map[string]string{"wire": Hx(w), "kind": what}
 	var m dns.Msg
@@ -115,6 +116,7 @@ func hostile(w []byte, emit bool, what string) {
 }
 
 func hostileRR(w []byte, off int, emit bool) {
+	w = append(make([]byte, 0, len(w)), w...)
 	st["rr_inputs_checked"]++
 	var rrT string
 	res := Protect(func() string {
@@ -138,6 +140,7 @@ func hostileRR(w []byte, off int, emit bool) {
 }
 
 func hostileName(w []byte, off int, emit bool) {
+	w = append(make([]byte, 0, len(w)), w...)
 	st["name_inputs_checked"]++
 	res := Protect(func() string {
 		s, o, err := dns.UnpackDomainName(w, off)
@@ -314,6 +317,51 @@ func run(r *Rng, tier string, n int) {
 			}
 			if code > 0 {
 				break
+			}
+		}
+	}
+	// option / parameter lengths that LIE: the claimed length differs from the octets present by -3..+8,
+	// the record being the last thing in the message and also followed by another record
+	for _, d := range []int{-3, -2, -1, 1, 2, 3, 4, 5, 6, 7, 8} {
+		for _, have := range []int{0, 1, 3, 4, 8} {
+			claimed := have + d
+			if claimed < 0 {
+				continue
+			}
+			for _, tail := range []bool{false, true} {
+				data := r.Bytes(have)
+				// SVCB: priority 1, target root, key 65400 (local) / 1 (alpn) / 4 (ipv4hint)
+				for _, key := range []int{65400, 1, 4, 6} {
+					rd := []byte{0, 1, 0, byte(key >> 8), byte(key), byte(claimed >> 8), byte(claimed)}
+					rd = append(rd, data...)
+					g := hdr(0, 1)
+					if tail {
+						g[7] = 2
+					}
+					g = append(g, 1, 's', 0, 0, 64, 0, 1, 0, 0, 0, 0, byte(len(rd)>>8), byte(len(rd)))
+					g = append(g, rd...)
+					if tail {
+						g = append(g, 0, 0, 1, 0, 1, 0, 0, 0, 0, 0, 4, 1, 2, 3, 4)
+					}
+					hostile(g, true, "svcb-param-lying-length")
+					hostileRR(g, 12, false)
+				}
+				for _, code := range []int{65001, 8, 10, 12, 15} {
+					rd := []byte{byte(code >> 8), byte(code), byte(claimed >> 8), byte(claimed)}
+					rd = append(rd, data...)
+					g := hdr(0, 0)
+					g[11] = 1
+					if tail {
+						g[11] = 2
+					}
+					g = append(g, 0, 0, 41, 0x10, 0, 0, 0, 0, 0, byte(len(rd)>>8), byte(len(rd)))
+					g = append(g, rd...)
+					if tail {
+						g = append(g, 0, 0, 1, 0, 1, 0, 0, 0, 0, 0, 4, 1, 2, 3, 4)
+					}
+					hostile(g, true, "edns-option-lying-length")
+					hostileRR(g, 12, false)
+				}
 			}
 		}
 	}
